@@ -545,6 +545,18 @@ func newCronTicker(cronExpr string) (*cronTicker, error) {
 	if err != nil {
 		return nil, err
 	}
+	// A field whose range is reversed (22-2) parses to an empty list of values, which Next indexes.
+	if err := func() (err error) {
+		defer func() {
+			if r := recover(); r != nil {
+				err = fmt.Errorf("invalid cron expression %q: a field has no value", cronExpr)
+			}
+		}()
+		expr.Next(time.Now())
+		return nil
+	}(); err != nil {
+		return nil, err
+	}
 	return &cronTicker{
 		expr:    expr,
 		ticker:  make(chan time.Time),
@@ -559,6 +571,11 @@ func (c *cronTicker) Start() <-chan time.Time {
 		for {
 			now := time.Now()
 			next := c.expr.Next(now)
+			if next.IsZero() {
+				// The schedule has no further occurrence: there is nothing to tick for anymore.
+				<-c.closing
+				return
+			}
 			diff := next.Sub(now)
 			select {
 			case <-time.After(diff):
